@@ -35,7 +35,7 @@ for p in props:
       },
       'level_note': 'Decides necessary structural conditions, not the behavioural property as a whole. A VIOLATION is reported only on positive evidence '
                     '(mechanism located in the tree under analysis and the required relation broken); code restructured beyond the fragment a rule recognises '
-                    'ends as ANALYSIS-INCONCLUSIVE (exit 2), never as a silent pass. Not decided: ' +
+                    'ends as ANALYSIS-INCONCLUSIVE (exit 2), never as a silent pass; the same holds for any report on a tree whose files for this property depart broadly from the vetted reference tree (>= 4 functions changed or >= 10 reference statements gone; DESIGN.md 10.12). Not decided: ' +
                     '; '.join(m.get('not_decided', ['value-level clauses'])) +
                     '. Trusted base: python ast, vf/cfg.py statement CFG (implicit exceptions only inside try), vf/model.py name resolution; '
                     'assumes no monkey-patching and documented behaviour of external libraries.',
